@@ -45,6 +45,23 @@ CLAIMED.update({
 CLAIMED["C12"] = (CLAIMED["C12"][0], CLAIMED["C12"][1] + "; ingress part: 413/429/503 through the real handler vs window characterisation of the token bucket",
                   CLAIMED["C12"][2] + " Ingress part: bodies and header sets around max_body/max_headers (413); arrival-time sequences at route-level and global limiters checked against the exact window characterisation (admitted iff count <= burst + rps x window for every window; windows cut at reloads); queue_limits through ingress incl. partial fan-out.",
                   "histories lifted above max_depth by operator requeue are excluded as the property says; one open known finding (memory eviction order after id reuse)")
+CLAIMED.update({
+ "C06": ("exploration", "deterministic simulation: real PushDispatcher/HTTPDeliverer over a simulated network with scripted target behaviour, workers scheduled as tasks; per-delivery classification oracle, backoff bounds, bounded liveness",
+         "Deliver routes (1-3 targets, concurrency 1-4, generated retry settings) on both backends; targets answer from scripts (status 100-599 biased to boundaries, refused, reset, response lost, hang to the deadline, DNS failure, recovery after failures). Dispatcher workers are adopted as tasks and run sequentially or interleaved at the network points, with stalls that let leases expire mid-delivery. Every store call of the dispatcher is observed: each recorded attempt must match the independent classification table, each settlement its recorded outcome, nack delays lie in [d(1-j), d(1+j)], sends per cycle <= max+1, one attempt record per delivery, and after faults stop every message ends delivered or dead.",
+         "jitter comes from the global math/rand source re-seeded per program (go:debug randseednop=0); the dispatcher's 200 ms real sleep after a dequeue error is not reached (no store faults in this world); trusted: sim/sys_dispatch.go reference table"),
+ "C07": ("exploration", "deterministic simulation: byte/headers comparison at every observation point (ingress store, pull HTTP base64, Worker API bytes, push request) across redeliveries",
+         "Payloads with NUL, 0xFF, invalid UTF-8, CRLF, sizes around max_body; header sets with repeated names, mixed case, Authorization/Proxy-Authorization/Cookie, forward-auth copy_headers. Stored message = accepted body and the reference header rule (ingress world); payload_b64 / bytes and headers on every pull dequeue incl. redeliveries (pull world); body and stored headers received by push targets across retries (dispatcher world).",
+         "byte-exactness itself is input generation; the simulator contributes 'across retries, redeliveries, both transports, both backends'; restart is covered for the store (C01)"),
+ "C11": ("exploration", "deterministic simulation: token variants on every Pull/Worker/Admin operation through the real wiring vs reference allowlist rule, with token rotation by reload",
+         "Configurations with global tokens, per-route overrides, admin tokens or none; callers with no header, wrong scheme, empty, prefix/suffix/case variants, another route's token, several values (gRPC metadata); HTTP handler from startServers, Worker API methods with metadata context, Admin listing; unauthorised => 401/Unauthenticated and the listing unchanged; authorised callers are never rejected.",
+         "gRPC wire transport not exercised (Worker API methods are called directly with a metadata context; its three wiring assignments are replicated in app/verif_export.go); input sampling through the real wiring"),
+ "C16": ("exploration", "deterministic simulation: generated egress policies x URLs x resolver behaviour through the real deliverer and net/http redirect logic vs independent policy predicate on the transport log",
+         "Every request that reaches the simulated network, including each redirect hop, must be allowed by the independent predicate under the addresses the resolver returned for that check; a denied delivery sends nothing, gets one attempt record and is dead-lettered as policy_denied without retry.",
+         "the address-class table itself is input sampling; the simulator adds redirect chains, resolver answers changing over time and the dispatcher's reaction"),
+ "C17": ("exploration", "deterministic simulation: signatures recomputed independently from received requests while the simulated clock crosses secret validity windows; inbound acceptance per signed timestamp",
+         "Push part: signed targets with inline secrets or secret_ref versions (overlapping, adjacent, tied valid_from), both selection modes; HMAC recomputed from the request the target received; no valid version => nothing reaches the transport. Inbound part: accepted iff signed with a version valid at the signed timestamp.",
+         "window boundaries are hit at whole seconds of the simulated clock (the signed timestamp has second resolution)"),
+})
 NA = {
  "C19": "config Parse/Format/Compile are pure functions of the text: no schedule, clock, I/O or fault for a simulation to decide (DESIGN.md §5)",
 }
